@@ -4,6 +4,7 @@ import Driver.Names
 import Driver.Codecs
 import Driver.Send
 import Driver.Client
+import Driver.Hist
 /-
   udsdrv: one request per line on stdin, one answer per line on stdout.  Imports Model and Spec only.
 -/
@@ -15,6 +16,7 @@ def dispatch (cmd : String) (a : Args) : Except String String :=
   else if cmd.startsWith "codec." then Drv.Codecs.run cmd a
   else if cmd == "send" then Drv.Send.run cmd a
   else if cmd == "deliver" || cmd == "sendd" then Drv.Client.run cmd a
+  else if cmd == "hist" then Drv.Hist.run cmd a
   else throw s!"unknown command {cmd}"
 
 partial def loop (hin hout : IO.FS.Stream) : IO Unit := do
